@@ -106,16 +106,6 @@ def signed (w : Nat) (n : Nat) : Int :=
 
 def isChar (c : Nat) : Bool := c < 0xD800 || (0xDFFF < c && c < 0x110000)
 
-/-- spec coercion of a payload value into the joined slot type (`lower_flat_variant`) -/
-def coerceUp (have_ want : FT) (v : Nat) : Nat :=
-  -- f32→i32, f64→i64: reinterpret; i32→i64, f32→i64: zero-extend the 32-bit pattern
-  match have_, want with
-  | _, _ => v
-
-/-- spec coercion out of the joined slot (`CoerceValueIter`): i64→i32/f32 wrap, others reinterpret -/
-def coerceDown (have_ want : FT) (v : Nat) : Nat :=
-  if have_.width = 64 ∧ want.width = 32 then v % 2 ^ 32 else v
-
 /-! ### typing -/
 
 def intRange : Ty → Option (Int × Int)
@@ -202,8 +192,8 @@ structure Heap where
   blocks : List (Nat × Nat × Nat) := []     -- (addr, size, align)
 deriving Repr, Inhabited
 
-/-- `realloc(0, 0, align, size)`; zero-sized requests return the (aligned) cursor without a block,
-as a host may do -/
+/-- `realloc(0, 0, align, size)` of ONE fixed bump allocator (not an arbitrary allocator oracle): the
+next aligned address; every request — zero-sized ones too — is recorded in the ledger of blocks. -/
 def Heap.alloc (h : Heap) (size align : Nat) : Nat × Heap :=
   let a := alignTo h.next (Nat.max align 1)
   (a, { next := a + size, blocks := (a, size, align) :: h.blocks })
